@@ -263,6 +263,58 @@ Definition glue_hist (a o : list value) : option verdict :=
   | _, _ => None
   end.
 
+Definition values_or_nil (req : list Z) : list (list Z) :=
+  match fields_of req with Some fs => values_of t_cookie fs | None => [] end.
+
+(* ---- c11.store ---- *)
+Definition glue_store (a o : list value) : option verdict :=
+  match a, o with
+  | [VL cv], [VL pv] =>
+      match getBs cv, getBs pv with
+      | Some cs, Some p =>
+          let m := fold_left (fun c x => store c [x]) cs client0 in
+          (* oracle: nothing is invented, and cookies of the issued length are all kept, in order *)
+          Some (functional [VL (map VB (pool m))] o
+                  (forallb (fun x => mem x cs) p &&
+                   (if issued_shape cs then bseq p cs else true)))
+      | _, _ => None
+      end
+  | _, _ => None
+  end.
+
+(* ---- c11.srv: an authenticated request of any shape, and the listener's reply ---- *)
+Definition glue_srv (a o : list value) : option verdict :=
+  match o with
+  | [VL [VZ 0]] => Some (relational true true)          (* the request could not be encoded: nothing sent *)
+  | [VL [VZ 99]] => Some (relational false false)       (* the process died *)
+  | [VL [VZ 1; VB req; VZ nrep; VB rep; VB pnonce; VB pct; VZ authok; VB plain; VL cookiesv; VB k1; VB k2]] =>
+      match parse_facts cookiesv with
+      | None => None
+      | Some cfs =>
+          let served := 0 <? nrep in
+          let oracle := (nrep =? 1) && reply_ok req rep (zb authok) cfs k1 k2 (values_or_nil req) in
+          let agree :=
+            match decode_packet req, plain_cookies (S (length plain)) plain 0 [] with
+            | Ok dq, Ok cs =>
+                match d_uid dq, cs with
+                | Some quid, c0 :: _ =>
+                    let rad := firstn (length rep - Z.to_nat (24 + pad4 (zlen plain + 16))) rep in
+                    let sl2 := seal_from (zb authok) k2 pnonce plain rad pct in
+                    served && (zlen cs =? reply_count (server_issue_count dq) (zlen quid) (zlen c0)) &&
+                    bseq cs (map cf_bytes cfs) &&
+                    match obind (new_response cs k2 quid) (fun rp => encode_packet sl2 (firstn 48 rep) rp pnonce) with
+                    | Ok b => beq b rep
+                    | _ => false
+                    end
+                | _, _ => false
+                end
+            | _, _ => false
+            end in
+          Some (relational agree oracle)
+      end
+  | _ => None
+  end.
+
 Definition glue_C11 (k : string) (a o : list value) : option verdict :=
   if is k "c11.const" then
     Some (functional [VZ MaxPacketLen; VZ serverCookieLen; VZ ntpPacketLen] o
@@ -270,6 +322,8 @@ Definition glue_C11 (k : string) (a o : list value) : option verdict :=
   else if is k "c11.req" then glue_req a o
   else if is k "c11.resp" then glue_resp a o
   else if is k "c11.hist" then glue_hist a o
+  else if is k "c11.store" then glue_store a o
+  else if is k "c11.srv" then glue_srv a o
   else None.
 
 Definition run_case k a o := first_some [glue_C11] k a o.
